@@ -801,6 +801,33 @@ def extract_app_sig_is_empty(repo):
     return ' ; '.join(ast.unparse(n) for n in body)
 
 
+def extract_batch_yields_own_flag(repo):
+    """SQLExecutor._prepare_transaction_batches: a new batch starts when `new_transaction or use_transaction is not
+    last_use_transaction`; every `yield` (the one inside the loop and the one after it) hands out
+    `(batch, last_use_transaction)` - the flag of the batch being yielded -, the loop then sets
+    `last_use_transaction = use_transaction` and appends the statement outside the `if`"""
+    tree = ast.parse(_src(repo, 'django_evolution/utils/sql.py'))
+    cls = _find_class(tree, 'SQLExecutor')
+    fn = _find_func(cls, '_prepare_transaction_batches')
+    loops = [n for n in fn.body if isinstance(n, ast.For)]
+    if len(loops) != 1:
+        raise ExtractError('_prepare_transaction_batches: expected one loop')
+    loop = loops[0]
+    if ast.unparse(loop.target) != '(statement, params, use_transaction, new_transaction)':
+        raise ExtractError('_prepare_transaction_batches: unexpected loop target ' + ast.unparse(loop.target))
+    ifs = [n for n in loop.body if isinstance(n, ast.If)]
+    if len(ifs) != 1 or len(loop.body) != 2:
+        raise ExtractError('_prepare_transaction_batches: expected `if ...:` and one append in the loop')
+    cond = ast.unparse(ifs[0].test)
+    yields = [ast.unparse(n.value) for n in ast.walk(fn) if isinstance(n, ast.Yield)]
+    assigns = [ast.unparse(n) for n in ifs[0].body if isinstance(n, ast.Assign)]
+    ok = cond == 'new_transaction or use_transaction is not last_use_transaction' and \
+        yields == ['(batch, last_use_transaction)'] * 2 and \
+        sorted(assigns) == ['batch = []', 'last_use_transaction = use_transaction'] and \
+        ast.unparse(loop.body[1]) == 'batch.append((statement, params))'
+    return ok
+
+
 def extract_found_reset_per_label(repo):
     """get_app_mutations: the flag that says "an SQL file was found for this label" is set to False INSIDE the loop
     over the labels (once per label), so that a label without an SQL file falls back to its Python module whatever
@@ -1084,6 +1111,10 @@ def regenerate(repo, outdir):
     flags['found_reset_per_label'] = frl
     parts.append('/-- get_app_mutations forgets, for every label, whether an earlier label was shipped as an SQL file -/')
     parts.append('def foundResetPerLabel : Bool := ' + ('true' if frl else 'false'))
+    byf = extract_batch_yields_own_flag(repo)
+    flags['batch_yields_own_flag'] = byf
+    parts.append('/-- _prepare_transaction_batches hands every batch out with the flag of its own statements -/')
+    parts.append('def batchYieldsOwnFlag : Bool := ' + ('true' if byf else 'false'))
     mlp = extract_mutation_loads_pass_database(repo)
     flags['mutation_loads_pass_database'] = mlp
     parts.append('/-- EvolveAppTask.prepare (preview) and _build_batches (execution) load the mutations for evolver.database_name -/')
